@@ -197,6 +197,84 @@ def runScript (f : Facts) (sc : Scen) : Json := Id.run do
   let shown := if sc.t = .stdio then outsL.filter (· == "ok") ++ outsL.filter (· != "ok") else outsL
   return Json.mkObj [("calls", Json.arr (shown.toArray.map Json.str)), ("pending", Json.num (JsonNumber.fromNat pending)), ("ledger", ledger)]
 
+def ledgerJson (s : St) (idx : List Nat) : Json :=
+  Json.mkObj [
+    ("bodies", Json.num (JsonNumber.fromNat (idx.filter (fun c => (s.calls c).body)).length)),
+    ("stuck", Json.num (JsonNumber.fromNat (b2n s.watcher + b2n s.closeWaiter))),
+    ("readers", Json.num (JsonNumber.fromNat (b2n s.reader))),
+    ("child", Json.num (JsonNumber.fromNat (b2n s.child))),
+    ("streams", Json.num (JsonNumber.fromNat (b2n s.stream)))]
+
+/-- A handshake script: the initialize request is call 0; `step` says where the handshake fails; then Close() — after
+    the failed (or successful) Initialize has returned, or while it is in flight (the peer answers after the Close).
+    The client's state at the time of the Close is Connected / Initialized only after a handshake that succeeded and
+    has returned (`Cfg.connected`); the transport is up in every case (`init`). -/
+def runHandshake (f : Facts) (t : Transport) (step : String) (during getSSE : Bool) : Json := Id.run do
+  let success := step == "none"
+  let cfg : Cfg := { t := t, getSSE := getSSE && (success || during), connected := success && !during }
+  let sc : Scen := { t := t, fr := .length, handlers := false, n := 1, answered := 0, fault := .none, pos := .frameEnd, ctx := "none",
+                     post := false, accept := false, afterInit := false, closeLive := true }
+  let closeEvs : List Ev := [.closeBegin, .closeEnd, .readerExit, .watcherExit, .closeWaitExit]
+  let mut s := apply f cfg (init cfg) [.issue 0]
+  let mut initOut := "hung"
+  if during then
+    s := apply f cfg s closeEvs
+    s := apply f cfg s (answerFully sc 0)   -- the peer answers after the Close
+    let (s', o) := finish f cfg s 0 false
+    s := s'
+    initOut := o.getD "hung"
+    if initOut == "ok" then s := apply f cfg s [.starterRun]
+  else
+    let clientLevel := step == "errorReply" || step == "garbage" || step == "initializedRefused" || step == "initializedReset"
+    if success || clientLevel then
+      s := apply f cfg s (answerFully sc 0)
+    else if step == "postReset" then
+      s := apply f cfg s [.connErr 0]
+    else if step == "http500" then
+      s := apply f cfg s (if t.http then [.headers 0 false] else [.connErr 0])
+    else if step == "exit" then
+      s := apply f cfg s [.procExit, .readerExit, .watcherExit]
+    else
+      s := apply f cfg s [.ctxDone 0]
+    let (s', o) := finish f cfg s 0 false
+    s := s'
+    -- an error reply, a result that does not parse, a refused notifications/initialized: the transport's call returned its
+    -- answer, Initialize fails one level up
+    initOut := if clientLevel && o == some "ok" then "err" else o.getD "hung"
+    if success then s := apply f cfg s [.starterRun]   -- the harness waits for the listening stream before it closes
+    s := apply f cfg s closeEvs
+  let pending := if (s.calls 0).inTable then 1 else 0
+  return Json.mkObj [("init", Json.str initOut), ("pending", Json.num (JsonNumber.fromNat pending)), ("ledger", ledgerJson s [0])]
+
+def serverOf : String → Except String Server
+  | "streamable" => pure .streamable
+  | "sse" => pure .sse
+  | "stdio" => pure .stdio
+  | s => throw s!"server {s}"
+
+/-- Server-issued requests: `ends` lists how each request ends — answered | ctx (its caller's context ended while it was
+    waiting / before it could be queued) | write (the request could not be written to the peer's stream, or its queue was
+    full) | refused (no stream / session: the request is refused before it is registered). -/
+def runServerReq (f : Facts) (ends : List String) : Json := Id.run do
+  let cfg := srvCfg
+  let mut s := init cfg
+  let mut outs : Array String := #[]
+  let mut i := 0
+  for e in ends do
+    if e == "refused" then
+      outs := outs.push "err"
+    else
+      s := apply f cfg s [.issue i]
+      if e == "answered" then s := apply f cfg s [.frame i, .deliver i]
+      else if e == "write" then s := apply f cfg s [.connErr i]
+      else s := apply f cfg s [.ctxDone i]
+      let (s', o) := finish f cfg s i false
+      s := s'
+      outs := outs.push (o.getD "hung")
+    i := i + 1
+  let pending := ((List.range ends.length).filter (fun c => (s.calls c).inTable)).length
+  return Json.mkObj [("calls", Json.arr (outs.map Json.str)), ("pending", Json.num (JsonNumber.fromNat pending))]
+
 def handle (op : String) (j : Json) : Except String Json := do
   let tb := Mcp.Gen.CallFacts.clTables
   match op with
@@ -207,6 +285,13 @@ def handle (op : String) (j : Json) : Except String Json := do
                        ctx := ← getStr j "ctx", post := (← getStr j "where") == "post", accept := (← getStr j "where") == "accept",
                        afterInit := (← getStr j "where") == "afterInit", closeLive := ← getBool j "closeLive" }
     pure (runScript (factsOf tb t) sc)
+  | "handshake" =>
+    let t ← transportOf (← getStr j "t")
+    pure (runHandshake (factsOf tb t) t (← getStr j "step") ((← getStr j "close") == "during") (← getBool j "getSSE"))
+  | "serverReq" =>
+    let sv ← serverOf (← getStr j "server")
+    let ends ← (← getArr j "ends").toList.mapM (fun x => match x with | Json.str s => pure s | _ => throw "ends: string expected")
+    pure (runServerReq (srvFacts Mcp.Gen.CallFacts.srvInserts sv) ends)
   | "closeLive" =>
     let k ← getNat j "clients"
     let f := factsOf tb .stdio
